@@ -442,6 +442,10 @@ func (e *executor) applyT(f []string) {
 		e.stats.dist["applied"]++
 		if isStaking {
 			e.stats.dist[fmt.Sprintf("applied:staking:failed=%v", receipt.Status == types.ReceiptStatusFailed)]++
+			var sm staking.Message
+			if rlp.DecodeBytes(tx.Data(), &sm) == nil && receipt.Status != types.ReceiptStatusFailed {
+				e.stats.dist[fmt.Sprintf("applied:staking:ok:action-%d", sm.Action)]++
+			}
 		} else if codeAtDest || to == nil {
 			e.stats.dist[fmt.Sprintf("applied:code-run:failed=%v", receipt.Status == types.ReceiptStatusFailed)]++
 		} else {
